@@ -234,6 +234,48 @@ def comparable(res):
             "exc": res["exc"] and res["exc"]["type"]}
 
 
+def spec_violations(blocks, flags, summ):
+    """The instruction set and its prices inside the specification handed to the back-ends: with PUSH0 disabled no
+    instruction is a PUSH0 and a zero push costs 3 gas / 2 bytes; with PUSH0 enabled every zero push is a PUSH0 (2 gas, 1 byte)."""
+    enabled = "-push0" not in flags
+    st, recs = procs.run_sut(pipe.run_specs, {"argv": flags, "blocks": blocks}, cpu_s=200)
+    out = []
+    if st != "ok":
+        return out
+    for text, rec in zip(blocks, recs):
+        if "exc" in rec:
+            continue
+        for key, sfs in rec["sfs"].items():
+            summ["evals"] += 1
+            for u in sfs["user_instrs"]:
+                zero = u.get("push") and u.get("value") == [0]
+                is0 = u["disasm"] == "PUSH0" or str(u.get("opcode")).lower() == "5f" or u["id"].startswith("PUSH0")
+                bad = None
+                if not enabled and is0:
+                    bad = "PUSH0 in the specification although the opcode is disabled"
+                elif zero and enabled and not is0:
+                    bad = "zero push that is not a PUSH0 although the opcode is enabled"
+                elif zero and (u.get("gas"), u.get("size")) != ((2, 1) if enabled else (3, 2)):
+                    bad = "zero push priced gas=%r size=%r" % (u.get("gas"), u.get("size"))
+                if bad:
+                    out.append({"class": ["spec-instruction-set", "push0-on" if enabled else "push0-off", bad.split(" ")[0]],
+                                "detail": "%s: %s: %s | block %s | flags %s" % (key, u["id"], bad, text, " ".join(flags)),
+                                "replay": {"kind": "spec", "blocks": [text], "flags": flags}})
+                    break
+    return out
+
+
+def check_spec_instruction_set(rw, i, summ):
+    blocks = []
+    for _ in range(4):
+        b = list(rw.choice(ZERO_SNIPPETS))
+        b = [it for it in b if it[0] != "RETURN"]
+        b += rw.choice([[], [("SLOAD", None)], [("DUP2", None), ("SSTORE", None)], [("DUP2", None), ("ADD", None)], [("POP", None)], [("DUP1", None), ("MSTORE", None)]])
+        blocks.append(AJ.items_to_text(b, 2))
+    flags = (["-push0"] if i % 2 == 0 else []) + [[], ["-size"], ["-length"], ["-no-simplification"]][(i // 2) % 4]
+    return spec_violations(blocks, flags, summ)
+
+
 def task(spec):
     i = spec["index"]
     rw = stream(spec["seed"], i, "workload")
@@ -272,6 +314,7 @@ def task(spec):
                 viols.append({"class": ["flag-history", what, "prev=%s" % ("on" if hist[-2] else "off"), "now=%s" % ("on" if hist[-1] else "off")],
                               "detail": "op %d gives different %s after ops with PUSH0 flags %s than alone | argv %s" % (
                                   nops - 1, what, hist[:-1], " ".join(ops[-1]["argv"][1:])), "replay": {"ops": ops}})
+    viols += check_spec_instruction_set(rw, i, summ)
     if not summ["samples"]:
         summ["samples"].append({"ops": [{"argv": o["argv"][1:], "push0": o["desc"]["push0"]} for o in ops]})
     seen = set()
@@ -285,6 +328,9 @@ def task(spec):
 
 
 def replay(rp):
+    if rp.get("kind") == "spec":
+        v = spec_violations(rp["blocks"], rp["flags"], {"evals": 0})
+        return v[0] if v else None
     ops = rp["ops"]
     st, results = procs.run_sut(pipe.run_op_seq, ops, cpu_s=200)
     if st != "ok":
